@@ -517,6 +517,7 @@ func init() { props["C01"] = runC01 }
 
 func runC01(r *Result, d *drv.Driver, tier string, seed int64, replay string) {
 	defer c01PayloadTypes(r)
+	defer c01EmptySequences(r)
 	n, rounds := 5000, 1
 	if tier == "thorough" {
 		n, rounds = 40000, 6
@@ -672,6 +673,90 @@ func c01PayloadTypes(r *Result) {
 			if reflect.TypeOf(got) != types[tn] {
 				r.find(Finding{Kind: "violation", What: "Decode(Encode(v)) returned the payload as another Go type than the one encoded", Input: map[string]string{"message": key, "bytes": hx(eb.Bytes())},
 					Expect: tn, Actual: fmt.Sprintf("%T", got)})
+			}
+		}
+	}
+}
+
+// c01EmptySequences: a sequence field that is empty is the most ordinary of values (an object with no attributes to list, a
+// Locate that found nothing). Encode writes nothing for it; Decode must then not insist on an item. The random values of the
+// main run follow the schema read off the code - where a sequence marked `required` is never generated empty - so a sequence
+// that BECOMES required is invisible to them. Here every sequence field of every type is emptied, except the three that the
+// message model itself requires to be non-empty (a Request / Response has at least one batch item; a Query names at least one
+// function): whatever Encode accepts must decode, to the same value, and re-encode to the same bytes.
+var requiredSequences = map[string]bool{"Request.BatchItems": true, "Response.BatchItems": true, "QueryRequest.QueryFunctions": true}
+
+func c01EmptySequences(r *Result) {
+	types := gen.StructTypes()
+	g := gen.New(977)
+	g.WF = true
+	var empty func(rv reflect.Value) int
+	empty = func(rv reflect.Value) int {
+		n := 0
+		switch rv.Kind() {
+		case reflect.Ptr, reflect.Interface:
+			if !rv.IsNil() {
+				if rv.Kind() == reflect.Interface {
+					// an interface holds a copy: rebuild it
+					c := reflect.New(rv.Elem().Type()).Elem()
+					c.Set(rv.Elem())
+					if k := empty(c); k > 0 && rv.CanSet() {
+						rv.Set(c)
+						n += k
+					}
+				} else {
+					n += empty(rv.Elem())
+				}
+			}
+		case reflect.Struct:
+			if rv.Type() == reflect.TypeOf(time.Time{}) {
+				return 0
+			}
+			for i := 0; i < rv.NumField(); i++ {
+				f := rv.Field(i)
+				if !f.CanSet() {
+					continue
+				}
+				if f.Kind() == reflect.Slice && f.Type().Elem().Kind() != reflect.Uint8 {
+					if !requiredSequences[rv.Type().Name()+"."+rv.Type().Field(i).Name] && f.Len() > 0 {
+						f.Set(reflect.Zero(f.Type()))
+						n++
+						continue
+					}
+					for j := 0; j < f.Len(); j++ {
+						n += empty(f.Index(j))
+					}
+					continue
+				}
+				n += empty(f)
+			}
+		}
+		return n
+	}
+	for _, tn := range typeNames(types) {
+		for rep := 0; rep < 3; rep++ {
+			p := g.NewStruct(types[tn])
+			if empty(p) == 0 && rep > 0 {
+				continue
+			}
+			key := fmt.Sprintf("%s with every optional sequence empty (%d)", tn, rep)
+			r.eval(key, true)
+			r.Stats["empty-sequence-probes"]++
+			var eb bytes.Buffer
+			if err := kmip.NewEncoder(&eb).Encode(p.Interface()); err != nil {
+				r.Stats["empty-sequence-probes:not-encodable"]++
+				continue
+			}
+			out := reflect.New(types[tn])
+			if err := kmip.NewDecoder(bytes.NewReader(eb.Bytes())).Decode(out.Interface()); err != nil {
+				r.find(Finding{Kind: "violation", What: "Decode refused what Encode wrote for a value whose optional sequences are empty", Input: map[string]string{"type": tn, "value": render.Struct(p.Interface()), "bytes": hx(eb.Bytes())},
+					Expect: "nil", Actual: err.Error()})
+				continue
+			}
+			var eb2 bytes.Buffer
+			if err := kmip.NewEncoder(&eb2).Encode(out.Interface()); err != nil || !bytes.Equal(eb.Bytes(), eb2.Bytes()) {
+				r.find(Finding{Kind: "violation", What: "re-encoding the decoded value (optional sequences empty) does not reproduce the bytes", Input: map[string]string{"type": tn, "bytes": hx(eb.Bytes())},
+					Expect: hx(eb.Bytes()), Actual: fmt.Sprintf("%s (error %v)", hx(eb2.Bytes()), err)})
 			}
 		}
 	}
